@@ -100,9 +100,16 @@ for _k, (_op, _lhs, _a) in _OPNEST.items():
         "  %s = %s\n" % (t, ("(%s %s " % (a, o)) * d + a + ")" * d)))
     FAMILIES["paren_left_" + _k] = (2, lambda d, o=_op, t=_lhs, a=_a: wrap(
         "  %s = %s\n" % (t, "(" * d + a + (" %s %s)" % (o, a)) * d)))
+# actual arguments of intrinsics that contain a '=' which is not a keyword's (<=, >=, /=, ==) or is one
+for _k, _op in (("le", "<="), ("ge", ">="), ("ne", "/="), ("eq", "=="), ("lt", "<")):
+    FAMILIES["intrinsic_arg_" + _k] = (2, lambda d, o=_op: wrap(
+        "  l = %s\n" % (("any(b %s (" % o) * d + "c" + "))" * d)))
+FAMILIES["intrinsic_arg_keyword"] = (2, lambda d: wrap("  x = " + "abs(a = (" * d + "b" + "))" * d + "\n"))
+FAMILIES["call_intrinsic_arg_le"] = (2, lambda d: wrap("  call sub(" + "any(b <= (" * d + "c" + "))" * d + ")\n"))
 FAMILIES["if_cond_paren_and"] = (2, lambda d: wrap("  if (" + "(m .and. " * d + "m" + ")" * d + ") x = 1\n"))
 
-EXPR_NEST = tuple(k for k in FAMILIES if k.startswith(("paren_right_", "paren_left_", "if_cond_paren"))) + ("parens", "signed_parens", "plus_signed", "signed_sum", "not_parens", "call_nest", "index_nest",
+EXPR_NEST = tuple(k for k in FAMILIES if k.startswith(("paren_right_", "paren_left_", "if_cond_paren", "intrinsic_arg_",
+                                                        "call_intrinsic_arg"))) + ("parens", "signed_parens", "plus_signed", "signed_sum", "not_parens", "call_nest", "index_nest",
              "mixed_nest", "array_ctor_nest")
 # recorded findings (KNOWN_FINDINGS.txt): families that are exponential on the pinned tree.  They stay in the
 # catalogue (signature growth:<family>) so that the finding is re-confirmed on every run.
